@@ -189,6 +189,47 @@ class _FakePath:
         self.outcome = "partial"
 
 
+def _ctor_nodes_of(v, out, seen, depth=0):
+    """the pandas constructor calls a value was built by (followed through aliases, method results, containers)"""
+    if v is None or id(v) in seen or depth > 8:
+        return
+    seen.add(id(v))
+    if isinstance(v, Num):
+        n = v.meta.get("ctor")
+        if n is not None:
+            out.add(id(n))
+        for k in ("alias_of", "recv", "of", "source"):
+            _ctor_nodes_of(v.meta.get(k), out, seen, depth + 1)
+    elif isinstance(v, OpaqueV):
+        for x in (v.meta or {}).values():
+            if isinstance(x, (Num, OpaqueV, TupleV, ListV, DictV)):
+                _ctor_nodes_of(x, out, seen, depth + 1)
+    elif isinstance(v, (TupleV, ListV)):
+        for x in v.items:
+            _ctor_nodes_of(x, out, seen, depth + 1)
+    elif isinstance(v, DictV):
+        for _, x in v.items:
+            _ctor_nodes_of(x, out, seen, depth + 1)
+
+
+def _output_ctor_nodes(p):
+    cache = getattr(p, "_c11_out_ctors", None)
+    if cache is not None:
+        return cache
+    out, seen = set(), set()
+    for e in p.events:
+        if e.kind == "return" and e.func is not None and e.func.name in ("_predict", "_transform_scores", "transform", "predict", "transform_scores"):
+            _ctor_nodes_of(e.data.get("value"), out, seen)
+        elif e.kind == "attr_store":
+            _ctor_nodes_of(e.data.get("value"), out, seen)
+    _ctor_nodes_of(getattr(p, "value", None), out, seen)
+    try:
+        p._c11_out_ctors = out
+    except Exception:
+        pass
+    return out
+
+
 def _report_uses(ctx, cls, entry, loc, paths, partial=False):
     rule = "C11.a NORMALISE-DOMINATES-USE"
     uses = {}
@@ -214,7 +255,10 @@ def _report_uses(ctx, cls, entry, loc, paths, partial=False):
                 if "[X]" in tk or tk.startswith("opq:X") or (isinstance(t, Num) and t.nf is not None and nf_equal(t.nf, sym("X"))):
                     names.setdefault((e.func.qualname if e.func else "?", norm_src(e.node)[:70]), e)
             elif e.kind == "pandas_ctor" and e.func is not None and e.func.name in ("_predict", "_transform_scores", "transform", "predict", "transform_scores"):
-                dense.append(e)
+                # an OUTPUT is a pandas object that is returned or published on the detector; an n-row Series that only
+                # serves a computation inside the method (a positional group-by, a rolling window) is not one
+                if id(e.node) in _output_ctor_nodes(p):
+                    dense.append(e)
             elif e.kind == "s2d_call":
                 dense.append(e)
     for (fq, src, what), e in uses.items():
